@@ -512,3 +512,74 @@ by move: (sturm_var S MInf) (sturm_var S PInf) (size _) (count _ _) Vab tot T2 c
 Qed.
 
 End Factor.
+
+(* ====================================================================== all the factors *)
+Definition chk_factor (gk : seq Z * nat) (l : seq ri_anum) : bool :=
+  check_isolation gk.1 (map item_of_anum l).
+
+Lemma lp_isolate_factors_cons fuel (g : seq Z) (rest : seq (seq Z * seq (seq Z))) :
+  lp_isolate_factors fuel ((g, lp_sturm_sequence g) :: rest)
+  = match lp_isolate_one g fuel, lp_isolate_factors fuel rest with
+    | Some l, Some r => Some (l ++ r)
+    | _, _ => None
+    end.
+Proof. by []. Qed.
+
+Section Global.
+Variable R : rcfType.
+Local Notation PR := (PR R).
+
+Lemma factors_ok fuel (fs : seq (seq Z * nat)) l :
+  (forall gk, gk \in fs -> [/\ PR gk.1 != 0, forall x : R, (\mu_x (PR gk.1) <= 1)%N
+                             & gk.1 = [:: 0%ZZ; 1%ZZ] \/ ~~ root (PR gk.1) 0]) ->
+  lp_isolate_factors fuel (map (fun fk : seq Z * nat => (fk.1, lp_sturm_sequence fk.1)) fs) = Some l ->
+  exists2 ls, l = flatten ls & all2 chk_factor fs ls.
+Proof.
+elim: fs l => [|gk fs IH] l H; first by move=> [<-]; exists [::].
+rewrite map_cons lp_isolate_factors_cons.
+case E1: (lp_isolate_one gk.1 fuel) => [l1|] //; case E2: lp_isolate_factors => [r|] // [<-].
+have [|ls -> a2] := IH r _ E2; first by move=> t tin; apply: H; rewrite inE tin orbT.
+exists (l1 :: ls) => //=; rewrite a2 andbT.
+have [g0 simple gx] := H gk (mem_head _ _).
+apply: (lp_isolate_one_ok g0 simple _ E1) => z.
+case: gx => // /negP nr; case: nr.
+rewrite /root -PR_pnorm horner0_PR -List_nthE ZtoR_eq0.
+by move: z; rewrite ZeqbP.
+Qed.
+
+(* THE isolation theorem for the faithful model: the answer is the concatenation, factor by factor, of lists each
+   accepted by the proved checker for its square-free factor *)
+Theorem lp_roots_isolate_ok fuel (f : seq Z) l : pis_zero f = false -> lp_roots_isolate fuel f = Some l ->
+  exists2 ls, l = flatten ls
+    & all2 chk_factor (if Nat.leb (length (pnorm f)) 1 then [::] else lp_sqfree_factors f) ls.
+Proof.
+move=> fz; have f0 : PR f != 0 by rewrite PR_eq0 fz.
+rewrite /lp_roots_isolate /lp_roots_isolate_seqs; case: Nat.leb; first by move=> [<-]; exists [::].
+have [fs1 fs2 fs3] := lp_sqfree_factors_spec f0.
+apply: factors_ok => gk gin; have [g0 _] := fs1 gk gin; split=> //; last exact: fs2.
+move=> x; have := leq_sum_mem (fun gk => \mu_x (PR gk.1)) gin; rewrite fs3 => h.
+by apply: leq_trans h _; case: (root _ _).
+Qed.
+
+Lemma all2_size (fs : seq (seq Z * nat)) (ls : seq (seq ri_anum)) : all2 chk_factor fs ls ->
+  size (flatten ls) = (\sum_(gk <- fs) size (rootsR (PR gk.1)))%N.
+Proof.
+elim: fs ls => [|gk fs IH] [|l ls] //=; first by rewrite big_nil.
+move=> /andP[c /IH e]; rewrite size_cat big_cons e; congr addn.
+by have [_ /denu_dens/dens_size] := @check_isolation_exact R _ _ c; rewrite size_map.
+Qed.
+
+(* corollary: the number of isolated roots returned by the model is the number of distinct real roots of f *)
+Theorem lp_roots_isolate_size fuel (f : seq Z) l : pis_zero f = false -> lp_roots_isolate fuel f = Some l ->
+  size l = size (rootsR (PR f)).
+Proof.
+move=> fz /(lp_roots_isolate_ok fz) [ls -> a2]; have f0 : PR f != 0 by rewrite PR_eq0 fz.
+move: a2; case: (boolP (Nat.leb _ _)) => [/Nat.leb_le le1|_].
+  by case: ls => //= _; rewrite rootsR_const // size_PR; apply/ssrnat.leP.
+move=> /all2_size ->; have [fs1 _ fs3] := lp_sqfree_factors_spec f0.
+rewrite -(count_predT (rootsR (PR f))) -(sum_count_partition predT f0 _ fs3).
+  by apply: eq_bigr => gk _; rewrite count_predT.
+by move=> gk /fs1 [].
+Qed.
+
+End Global.
